@@ -165,8 +165,12 @@ func TestDriver(t *testing.T) {
 	fills := vh.EnvInt("VERIF_FILLS", 6)
 	for i := 0; i < nr; i++ {
 		heavy := i%3 == 0
-		fill := heavy && fills > 0 && i%2 == 0
-		if fill {
+		fill := 0
+		if heavy && fills > 0 && i%2 == 0 {
+			fill = []int{1, 4, 16, 4}[fills%4] // (the first one item by item: the limit itself is reached in every run)
+			if i == 0 {
+				fill = 1
+			}
 			fills--
 		}
 		h := genRandom(s.r, 30+s.r.Intn(120), 3+s.r.Intn(3), 4+s.r.Intn(5), heavy, fill)
